@@ -16,3 +16,14 @@ func verifMem(requiredMem uint64) uint64 {
 	}
 	return requiredMem
 }
+
+// VerifBeforeWriteFn, when set, is called when a plotting pass has computed a window and is about to write it to
+// the table file (before the stop channel is polled for the first block).  It lets the harness deliver a stop
+// request at exactly that point.
+var VerifBeforeWriteFn func()
+
+func verifBeforeWrite() {
+	if f := VerifBeforeWriteFn; f != nil {
+		f()
+	}
+}
